@@ -5,7 +5,7 @@ use crate::net::socket::{Socket, SocketError};
 /// What the harness tells the sockets to do / what they observed (single-threaded `static mut`).
 #[allow(static_mut_refs)]
 pub(super) mod sockstate {
-    pub const RBUF: usize = if option_env!("VERIF_THOROUGH").is_some() { 96 } else { 64 };
+    pub const RBUF: usize = if option_env!("VERIF_THOROUGH").is_some() { 96 } else { 72 };
     /// bytes the next `read` / `recv_from` returns
     pub static mut READ_BYTES: [u8; RBUF] = [0; RBUF];
     pub static mut READ_LEN: usize = 0;
